@@ -593,6 +593,7 @@ func init() {
 				{Name: "unusable_algorithm", N: len(scs) * 5, Fn: c10Alg(scs)},
 				{Name: "concurrent_requests_during_a_fault", N: len(scs), Fn: c10Concurrent(scs)},
 				{Name: "readiness_probe_lists", N: 26, Fn: c10ProbeLists},
+				{Name: "readiness_after_an_abandoned_probe", N: 8, Fn: c10AbandonedProbe},
 			}
 			if c.Thorough {
 				wls = append(wls, core.Workload{Name: "fault_pairs", N: len(scs), Fn: c10Single(scs, true, false)})
@@ -671,5 +672,64 @@ func c10ProbeLists(r *core.Run, idx int, rng *rand.Rand) {
 	}
 	if d.Status < 500 {
 		r.Violate(core.Violation{Clause: "not_an_error_reply", Class: class, Reason: fmt.Sprintf("status %d although a readiness probe failed", d.Status), Workload: wl, Index: idx, Case: desc, Observed: obs})
+	}
+}
+
+// c10AbandonedProbe: a readiness probe whose Health call hangs (and does not look at the context) is abandoned by its
+// client; the call returns - successfully - a little later. The next probe, during which Health fails, is answered
+// with an error all the same: what an earlier probe found out is not this probe's answer.
+func c10AbandonedProbe(r *core.Run, idx int, rng *rand.Rand) {
+	const wl = "readiness_after_an_abandoned_probe"
+	e := env.Static(env.Opts{})
+	e.W.IgnoreCtx = true
+	tagA := fmt.Sprintf("abandoned%d", idx)
+	entered, release := make(chan struct{}), make(chan struct{})
+	var once sync.Once
+	failing := false
+	e.W.Before = func(_ context.Context, tag, op string, _ int) {
+		if op == "Health" && tag == tagA {
+			once.Do(func() { close(entered) })
+			<-release
+		}
+	}
+	e.W.Plan = func(tag, op string, _ int) string {
+		if op == "Health" && failing && tag != tagA {
+			return []string{sim.FaultError, sim.FaultTimeout, sim.FaultTemporary, sim.FaultErrTextWide}[idx%4]
+		}
+		return ""
+	}
+	ctxA, cancelA := context.WithCancel(context.Background())
+	doneA := make(chan struct{})
+	go func() {
+		defer close(doneA)
+		e.Do(env.Req{Path: "/ready", Ctx: ctxA, Tag: tagA})
+	}()
+	select {
+	case <-entered:
+	case <-doneA:
+	case <-time.After(2 * time.Second):
+	}
+	cancelA() // the prober goes away
+	time.Sleep(time.Duration(1+idx%3) * 5 * time.Millisecond)
+	close(release) // the hanging call comes back, successfully
+	select {
+	case <-doneA:
+	case <-time.After(5 * time.Second):
+	}
+	time.Sleep(5 * time.Millisecond)
+	failing = true
+	for k := 0; k < 3; k++ {
+		call := e.Do(env.Req{Path: "/ready"})
+		class := fmt.Sprintf("abandoned_probe|then_failing_probe_%d", k)
+		r.Eval(fmt.Sprintf("%s|%d", class, idx))
+		r.Count("failing_probes_after_an_abandoned_one", 1)
+		if call.Panic != "" {
+			r.Violate(core.Violation{Clause: "panic", Class: class, Reason: call.Panic, Workload: wl, Index: idx, Observed: call.Describe()})
+			return
+		}
+		if call.D.Status < 500 {
+			r.Violate(core.Violation{Clause: "not_an_error_reply", Class: class, Reason: fmt.Sprintf("status %d although the health probe of this request failed (an earlier probe had been abandoned while its health call was pending)", call.D.Status), Workload: wl, Index: idx, Observed: call.Describe()})
+			return
+		}
 	}
 }
